@@ -932,6 +932,36 @@ def run_c12(rnd, tier, v, stats):
                 v("C12/closed-before-tymeout", inp, dict(closed_at=closed_at), dict(not_before=last_traffic + T))
 
 
+def run_c14_differential(rnd, tier, v, stats):
+    """C14 with ONE Requester re-used for several requests that do not pass the path again (the documented differential mode):
+    every request must be recovered with the SAME path, also when quote() alters it"""
+    from hio.core.http import clienting, serving
+    paths = ["/caf\u00e9 au lait/100%/\u65e5\u672c", "/a b/c%20d", "/plain", "/x y", "/%41", "/\u00fc"]
+    for it in range(len(paths) * (2 if tier == "quick" else 10)):
+        path = paths[it % len(paths)]
+        rq = clienting.Requester(hostname="example.com", port=8080, method="GET", path=path)
+        inp = dict(scenario="one Requester, path given once", path=path)
+        stats["distinct"].add(repr(inp))
+        for k in range(3):
+            try:
+                wire = rq.build() if k == 0 else rq.rebuild(method=rnd.choice(["POST", "PUT"]), body=b"b%d" % k)
+            except Exception as ex:   # noqa
+                v("C14/build-raised", dict(inp, index=k, witness_class=type(ex).__name__), repr(ex)[:120])
+                break
+            rt = serving.Requestant(msg=bytearray(wire), remoter=FakeRemoter())
+            try:
+                for _ in range(4):
+                    if rt.parser:
+                        rt.parse()
+            except Exception as ex:   # noqa
+                v("C14/server-parse-raised", dict(inp, index=k, witness_class=type(ex).__name__), repr(ex)[:120])
+                break
+            stats["evals"] += 1
+            if not rt.ended or rt.errored or rt.path != path:
+                v("C14/differential-request-path-differs", dict(inp, index=k), rt.path, path)
+                break
+
+
 def run_c14_keepalive(rnd, tier, v, stats):
     """C14 on a reused connection: consecutive requests through ONE Requestant must each be recovered exactly"""
     from hio.core.http import clienting, serving
@@ -976,6 +1006,62 @@ def run_c14_keepalive(rnd, tier, v, stats):
 def run_c14_all(rnd, tier, v, stats):
     run_c14(rnd, tier, v, stats)
     run_c14_keepalive(rnd, tier, v, stats)
+    run_c14_differential(rnd, tier, v, stats)
 
 
-RUNNERS = {"C12": run_c12, "C13": run_c13, "C14": run_c14_all, "C15": run_c15, "C16": run_c16, "C17": run_c17, "C18": run_c18, "C19": run_c19}
+def run_c15_reconnect(rnd, tier, v, stats):
+    """one Respondent across reconnects (as the http Client drives it): event stream, then optionally an empty-body response,
+    then an event stream again; every stream must deliver exactly its events"""
+    from hio.core.http import clienting
+    head_sse = b"HTTP/1.1 200 OK\r\nContent-Type: text/event-stream\r\n\r\n"
+    head_sse_chunked = b"HTTP/1.1 200 OK\r\nContent-Type: text/event-stream\r\nTransfer-Encoding: chunked\r\n\r\n"
+    empties = [None, b"HTTP/1.1 503 Service Unavailable\r\nContent-Type: text/plain\r\nContent-Length: 0\r\n\r\n",
+               b"HTTP/1.1 204 No Content\r\n\r\n", b"HTTP/1.1 503 Service Unavailable\r\nContent-Length: 2\r\n\r\nno"]
+    first = [b"id: 1\n", b"data: alpha\n", b"\n"]
+    second = [b"id: 3\r", b"event: tock\n", b"data: gamma\r\n", b"data: delta\r", b"\r\n", b"data: zeta\r\n", b"\n"]
+    want2 = [dict(id="3", name="tock", data="gamma\ndelta"), dict(id="3", name="", data="zeta")]
+
+    def drive(resp, msg, head, frags, close):
+        msg.extend(head)
+        resp.parse()
+        for f in frags:
+            msg.extend(f)
+            resp.parse()
+        if close:
+            resp.close()
+            resp.parse()
+        ended = resp.ended
+        resp.makeParser()
+        return ended
+    for between in empties:
+        for chunk in (False, True):
+            inp = dict(scenario="reconnecting event stream", between=None if between is None else between.split(b"\r\n")[0].decode(), chunked=chunk)
+            stats["distinct"].add(repr(inp))
+            msg = bytearray()
+            resp = clienting.Respondent(msg=msg, method="GET")
+            try:
+                drive(resp, msg, head_sse, first, True)
+                resp.events.clear()
+                if between is not None:
+                    drive(resp, msg, between, [], False)
+                    resp.events.clear()
+                if chunk:
+                    frs = [b"%x\r\n" % len(f) + f + b"\r\n" for f in second] + [b"0\r\n\r\n"]
+                    drive(resp, msg, head_sse_chunked, frs, False)
+                else:
+                    drive(resp, msg, head_sse, second, True)
+            except Exception as ex:   # noqa
+                v("C15/reconnect-raised", dict(inp, witness_class=type(ex).__name__), repr(ex)[:120])
+                continue
+            stats["evals"] += 1
+            got = [dict(id=e["id"], name=e["name"], data=e["data"]) for e in resp.events]
+            if got != want2 or resp.leid != "3":
+                v("C15/events-lost-after-reconnect", inp, dict(events=got, leid=resp.leid), dict(events=want2, leid="3"))
+
+
+def run_c15_all(rnd, tier, v, stats):
+    run_c15(rnd, tier, v, stats)
+    run_c15_reconnect(rnd, tier, v, stats)
+
+
+RUNNERS = {"C12": run_c12, "C13": run_c13, "C14": run_c14_all, "C15": run_c15_all, "C16": run_c16, "C17": run_c17, "C18": run_c18, "C19": run_c19}
